@@ -15,10 +15,5 @@ func VerifLoadCachedPartitions(n int) []int { return loadCachedPartitions(n) }
 func VerifSetRoundRobinCalls(rr *RoundRobin, calls uint64, n int) {
 	rr.mutex.Lock()
 	defer rr.mutex.Unlock()
-	chunk := uint64(1)
-	if rr.ChunkSize > 1 {
-		chunk = uint64(rr.ChunkSize)
-	}
-	rr.index = int((calls / chunk) % uint64(n))
-	rr.count = int(calls % chunk)
+	rr.counter = calls
 }
